@@ -150,6 +150,28 @@ func vf01Pool(f []string) string {
 	return strings.Join(res, " ")
 }
 
+// PrefixAllocator has no Available(): the number of free prefixes is observed through the package's own
+// functions only - allocate to a probe session until the pool is exhausted, then release every prefix again.
+// (The set of free prefixes and every lease are as before; only the order inside the free list may differ,
+// which the model does not constrain.)  Nothing here depends on how or when the allocator builds its free list.
+func vf01PDFree(a *PrefixAllocator) int {
+	var got []*net.IPNet
+	for {
+		p, err := a.Allocate("\x00probe")
+		if err != nil {
+			break
+		}
+		got = append(got, p)
+		if len(got) > 1<<20 {
+			break
+		}
+	}
+	for _, p := range got {
+		a.Release(p)
+	}
+	return len(got)
+}
+
 func vf01PD(f []string) string {
 	// pd <net dec> <nbits> <plen> ; ops
 	nb, _ := strconv.Atoi(f[2])
@@ -186,10 +208,7 @@ func vf01PD(f []string) string {
 			p.SetDirection(arg == "1")
 			res = append(res, "ok")
 		case 'V':
-			p.mu.Lock()
-			n := len(p.free)
-			p.mu.Unlock()
-			res = append(res, "n"+strconv.Itoa(n))
+			res = append(res, "n"+strconv.Itoa(vf01PDFree(p)))
 		default:
 			res = append(res, "badop")
 		}
@@ -503,10 +522,7 @@ func vf01Reg(f []string) string {
 			case fam == 'n':
 				res = append(res, "n"+strconv.Itoa(r.ianaAllocators[k].Available()))
 			default:
-				a := r.pdAllocators[k]
-				a.mu.Lock()
-				res = append(res, "n"+strconv.Itoa(len(a.free)))
-				a.mu.Unlock()
+				res = append(res, "n"+strconv.Itoa(vf01PDFree(r.pdAllocators[k])))
 			}
 		case 'O':
 			var l []string
@@ -536,7 +552,7 @@ func vf01Reg(f []string) string {
 		fin = append(fin, "n:"+vf01Unkey(k)+"="+strconv.Itoa(a.Available()))
 	}
 	for k, a := range r.pdAllocators {
-		fin = append(fin, "d:"+vf01Unkey(k)+"="+strconv.Itoa(len(a.free)))
+		fin = append(fin, "d:"+vf01Unkey(k)+"="+strconv.Itoa(vf01PDFree(a)))
 	}
 	sort.Strings(fin)
 	res = append(res, "|")
